@@ -17,12 +17,27 @@ F.spec("row_of(ncols, c)", "c // ncols")
 F.spec("cell_at(ncols, row, col)", "row*ncols + col")
 F.spec("centre_x(xll, csz, col)", "xll + csz*(real(col) + 0.5)")
 F.spec("centre_y(nrows, yll, csz, row)", "yll + csz*(real(nrows - 1 - row) + 0.5)")
-# footprint of cell (row, col): open box strictly inside the cell
+# footprint of cell (row, col), open box strictly inside the cell, in cell units measured from the lower-left corner:
+# u = (x-xll)/csz in (col, col+1), w = (y-yll)/csz in (nrows-1-row, nrows-row).
 F.spec("strictly_in_cell(nrows, ncols, xll, yll, csz, x, y, row, col)",
+       "real(col) < (x - xll)/csz and (x - xll)/csz < real(col + 1) and "
+       "real(nrows - 1 - row) < (y - yll)/csz and (y - yll)/csz < real(nrows - row)")
+F.spec("strictly_outside(nrows, ncols, xll, yll, csz, x, y)",
+       "(x - xll)/csz < 0 or (x - xll)/csz > real(ncols) or (y - yll)/csz < 0 or (y - yll)/csz > real(nrows)")
+# the same predicates in coordinate units (the way the property states them); equivalent for csz > 0 (lemmas below)
+F.spec("strictly_in_cell_xy(nrows, ncols, xll, yll, csz, x, y, row, col)",
        "xll + csz*real(col) < x and x < xll + csz*real(col+1) and "
        "yll + csz*real(nrows-1-row) < y and y < yll + csz*real(nrows-row)")
-F.spec("strictly_outside(nrows, ncols, xll, yll, csz, x, y)",
+F.spec("strictly_outside_xy(nrows, ncols, xll, yll, csz, x, y)",
        "x < xll or x > xll + csz*real(ncols) or y < yll or y > yll + csz*real(nrows)")
+F.lemma("scaled_lt", "a:real, b:real, t:real, csz:real", pre="csz > 0",
+        stmt="iff(a + csz*t < b, t < (b - a)/csz) and iff(b < a + csz*t, (b - a)/csz < t)", props=["C07"])
+F.lemma("footprint_forms", "xll:real, yll:real, csz:real, x:real, y:real, nrows:int, ncols:int, row:int, col:int", pre="csz > 0",
+        stmt="iff(strictly_in_cell(nrows, ncols, xll, yll, csz, x, y, row, col), strictly_in_cell_xy(nrows, ncols, xll, yll, csz, x, y, row, col))",
+        props=["C07"])
+F.lemma("outside_forms", "xll:real, yll:real, csz:real, x:real, y:real, nrows:int, ncols:int", pre="csz > 0",
+        stmt="iff(strictly_outside(nrows, ncols, xll, yll, csz, x, y), strictly_outside_xy(nrows, ncols, xll, yll, csz, x, y))",
+        props=["C07"])
 # neighbour slot k (0..8, row-major 3x3 around the cell; slot 4 is the cell itself)
 F.spec("nbr(nrows, ncols, c, k)",
        "ite(k != 4 and 0 <= c % ncols + (k % 3 - 1) and c % ncols + (k % 3 - 1) < ncols and "
@@ -99,10 +114,11 @@ K.requires("not isnan(xll) and not isnan(yll) and csz > 0")
 K.assigns("idxcell[0:nval]")
 K.ensures("result == 0")
 # C07: c for every point inside the footprint of c, -1 for every point outside the extent (edges unconstrained)
-K.ensures("forall(k, 0 <= k < nval, forall(c, 0 <= c < nrows*ncols, implies("
+# (the cell in row `row` from the top and column `col` is number row*ncols+col: row-major numbering from the top-left)
+K.ensures("forall(k, 0 <= k < nval, forall(row, 0 <= row < nrows, forall(col, 0 <= col < ncols, implies("
           "not isnan(xycoords[2*k]) and not isnan(xycoords[2*k+1]) and "
-          "strictly_in_cell(nrows, ncols, xll, yll, csz, xycoords[2*k], xycoords[2*k+1], row_of(ncols, c), col_of(ncols, c)), "
-          "idxcell[k] == c)))", props=["C07"])
+          "strictly_in_cell(nrows, ncols, xll, yll, csz, xycoords[2*k], xycoords[2*k+1], row, col), "
+          "idxcell[k] == cell_at(ncols, row, col)))))", props=["C07"])
 K.ensures("forall(k, 0 <= k < nval, implies("
           "not isnan(xycoords[2*k]) and not isnan(xycoords[2*k+1]) and "
           "strictly_outside(nrows, ncols, xll, yll, csz, xycoords[2*k], xycoords[2*k+1]), idxcell[k] == -1))", props=["C07"])
@@ -110,14 +126,20 @@ K.ensures("forall(k, 0 <= k < nval, implies("
 K.ensures("forall(k, 0 <= k < nval, idxcell[k] == -1 or valid_cell(nrows, ncols, idxcell[k]))", props=["C05", "C07"])
 K.loop(0, var="i", invariant=[
     "0 <= i and i <= nval",
-    "forall(k, 0 <= k < i, forall(c, 0 <= c < nrows*ncols, implies("
+    "forall(k, 0 <= k < i, forall(row, 0 <= row < nrows, forall(col, 0 <= col < ncols, implies("
     "not isnan(xycoords[2*k]) and not isnan(xycoords[2*k+1]) and "
-    "strictly_in_cell(nrows, ncols, xll, yll, csz, xycoords[2*k], xycoords[2*k+1], row_of(ncols, c), col_of(ncols, c)), "
-    "idxcell[k] == c)))",
+    "strictly_in_cell(nrows, ncols, xll, yll, csz, xycoords[2*k], xycoords[2*k+1], row, col), "
+    "idxcell[k] == cell_at(ncols, row, col)))))",
     "forall(k, 0 <= k < i, implies("
     "not isnan(xycoords[2*k]) and not isnan(xycoords[2*k+1]) and "
     "strictly_outside(nrows, ncols, xll, yll, csz, xycoords[2*k], xycoords[2*k+1]), idxcell[k] == -1))",
     "forall(k, 0 <= k < i, idxcell[k] == -1 or valid_cell(nrows, ncols, idxcell[k]))",
+], hints=[
+    # the column / row (from the bottom) computed for a point strictly inside the footprint of (row, col)
+    "forall(row, 0 <= row < nrows, forall(col, 0 <= col < ncols, implies("
+    "not isnan(xycoords[2*i]) and not isnan(xycoords[2*i+1]) and "
+    "strictly_in_cell(nrows, ncols, xll, yll, csz, xycoords[2*i], xycoords[2*i+1], row, col), "
+    "fx == col and fy == nrows - 1 - row)))",
 ])
 
 # ---------------------------------------------------------------------------------- c_neighbours
@@ -128,3 +150,210 @@ K.assigns("neighbours[0:9]")
 K.behavior("invalid", "not valid_cell(nrows, ncols, idxcell)", "result > 0", props=["C07"])
 K.behavior("valid", "valid_cell(nrows, ncols, idxcell)",
            ["result == 0"] + ["neighbours[%d] == nbr(nrows, ncols, idxcell, %d)" % (k, k) for k in range(9)], props=["C07", "C06"])
+
+# ====================================================================================== flow direction
+# FLOWDIRCODE is read from grid.py on every run (props/common.flowdircode) and bound to the constants FDC0..FDC8.
+FDC_IS = " and ".join("flowdircode[%d] == FDC%d" % (k, k) for k in range(9))
+# slot of the 3x3 table holding code fd (first match wins in the kernel; the codes are pairwise distinct), -1 if none
+F.spec("dirslot(fd)", "ite(fd == FDC0, 0, ite(fd == FDC1, 1, ite(fd == FDC2, 2, ite(fd == FDC3, 3, ite(fd == FDC4, 4, "
+       "ite(fd == FDC5, 5, ite(fd == FDC6, 6, ite(fd == FDC7, 7, ite(fd == FDC8, 8, -1)))))))))")
+# C06 downstream relation: -2 sink (code 0), -1 off-grid or unknown code, else the neighbour in the direction of the code
+F.spec("down(nrows, ncols, fd, c)", "ite(fd == 0, -2, ite(dirslot(fd) < 0, -1, nbr(nrows, ncols, c, dirslot(fd))))")
+# neighbour in slot j of cell c drains into c
+F.spec("is_up(nrows, ncols, flowdir, c, j)",
+       "nbr(nrows, ncols, c, j) != -1 and flowdir[nbr(nrows, ncols, c, j)] != 0 and "
+       "flowdir[nbr(nrows, ncols, c, j)] == ite(j == 0, FDC8, ite(j == 1, FDC7, ite(j == 2, FDC6, ite(j == 3, FDC5, ite(j == 4, FDC4, "
+       "ite(j == 5, FDC3, ite(j == 6, FDC2, ite(j == 7, FDC1, FDC0))))))))")
+F.spec("b2i(b)", "ite(b, 1, 0)")
+F.spec("upcnt(nrows, ncols, flowdir, c, j)",
+       " + ".join("ite(%d < j, b2i(is_up(nrows, ncols, flowdir, c, %d)), 0)" % (q, q) for q in range(9)))
+FDC_DISTINCT = " and ".join("FDC%d != FDC%d" % (a, b) for a in range(9) for b in range(a + 1, 9))
+
+# ---- lemmas over the specs (C06/C07): mirrored neighbour slots, upstream and downstream are inverse relations
+F.lemma("nbr_mirror", "nrows:int, ncols:int, c:int, j:int",
+        pre=SANE_GRID + " and valid_cell(nrows, ncols, c) and 0 <= j and j < 9 and nbr(nrows, ncols, c, j) != -1",
+        stmt="valid_cell(nrows, ncols, nbr(nrows, ncols, c, j)) and nbr(nrows, ncols, nbr(nrows, ncols, c, j), 8 - j) == c and nbr(nrows, ncols, c, j) != c",
+        props=["C06", "C07"])
+F.lemma("nbr_injective", "nrows:int, ncols:int, c:int, j:int, k:int",
+        pre=SANE_GRID + " and valid_cell(nrows, ncols, c) and 0 <= j and j < 9 and 0 <= k and k < 9 and nbr(nrows, ncols, c, j) != -1 and nbr(nrows, ncols, c, j) == nbr(nrows, ncols, c, k)",
+        stmt="j == k", props=["C06", "C07"])
+F.lemma("updown_inverse", "nrows:int, ncols:int, c:int, d:int, fd:int",
+        pre=SANE_GRID + " and valid_cell(nrows, ncols, c) and valid_cell(nrows, ncols, d) and " + FDC_DISTINCT + " and FDC4 == 0",
+        # d is listed upstream of c  (some slot j of c holds d, and d's code fd is the mirrored entry)  <=>  downstream(d) == c
+        stmt="iff(" + " or ".join("(nbr(nrows, ncols, c, %d) == d and fd != 0 and fd == FDC%d)" % (j, 8 - j) for j in range(9) if j != 4)
+             + ", down(nrows, ncols, fd, d) == c)", props=["C06"])
+
+# ---------------------------------------------------------------------------------- c_downstream
+K = F.kernel("c_downstream")
+K.requires(SANE_GRID)
+K.requires("nval >= 0 and nval <= 2**60")
+K.requires("valid(flowdircode, 9) and valid(flowdir, nrows*ncols) and valid(idxup, nval) and valid(idxdown, nval)")
+K.requires("separated(flowdircode, flowdir, idxup, idxdown)")
+K.assigns("idxdown[0:nval]")
+K.behavior("all_valid", "forall(k, 0 <= k < nval, valid_cell(nrows, ncols, idxup[k]))", "result == 0", props=["C06"])
+K.behavior("some_invalid", "exists(k, 0 <= k < nval, not valid_cell(nrows, ncols, idxup[k]))", "result > 0", props=["C06"])
+K.behavior("esri", FDC_IS + " and forall(k, 0 <= k < nval, valid_cell(nrows, ncols, idxup[k]))",
+           "forall(k, 0 <= k < nval, idxdown[k] == down(nrows, ncols, flowdir[idxup[k]], idxup[k]))", props=["C06"])
+# whatever the table: every answer is a valid cell, -1 or -2 (C05: callers index arrays with it)
+K.behavior("range", "forall(k, 0 <= k < nval, valid_cell(nrows, ncols, idxup[k]))",
+           "forall(k, 0 <= k < nval, idxdown[k] == -1 or idxdown[k] == -2 or valid_cell(nrows, ncols, idxdown[k]))", props=["C05"])
+K.loop(0, var="i", invariant=[
+    "0 <= i and i <= nval",
+    "forall(k, 0 <= k < i, valid_cell(nrows, ncols, idxup[k]))",
+    "implies(" + FDC_IS + ", forall(k, 0 <= k < i, idxdown[k] == down(nrows, ncols, flowdir[idxup[k]], idxup[k])))",
+    "forall(k, 0 <= k < i, idxdown[k] == -1 or idxdown[k] == -2 or valid_cell(nrows, ncols, idxdown[k]))",
+])
+
+# ---------------------------------------------------------------------------------- c_upstream
+K = F.kernel("c_upstream")
+K.requires(SANE_GRID)
+K.requires("nval >= 0 and nval <= 2**58")
+K.requires("valid(flowdircode, 9) and valid(flowdir, nrows*ncols) and valid(idxdown, nval) and valid(idxup, 9*nval)")
+K.requires("separated(flowdircode, flowdir, idxdown, idxup)")
+K.assigns("idxup[0:9*nval]")
+K.behavior("all_valid", "forall(k, 0 <= k < nval, valid_cell(nrows, ncols, idxdown[k]))", "result == 0", props=["C06"])
+K.behavior("some_invalid", "exists(k, 0 <= k < nval, not valid_cell(nrows, ncols, idxdown[k]))", "result > 0", props=["C06"])
+UP_ROW = ("(" + " and ".join(
+    "implies(is_up(nrows, ncols, flowdir, idxdown[k], %d), idxup[9*k + upcnt(nrows, ncols, flowdir, idxdown[k], %d)] == nbr(nrows, ncols, idxdown[k], %d))" % (j, j, j)
+    for j in range(9)) + " and forall(p, upcnt(nrows, ncols, flowdir, idxdown[k], 9) <= p < 9, idxup[9*k + p] == -1))")
+K.behavior("esri", FDC_IS + " and forall(k, 0 <= k < nval, valid_cell(nrows, ncols, idxdown[k]))",
+           "forall(k, 0 <= k < nval, " + UP_ROW + ")", props=["C06"])
+K.behavior("range", "forall(k, 0 <= k < nval, valid_cell(nrows, ncols, idxdown[k]))",
+           "forall(q, 0 <= q < 9*nval, idxup[q] == -1 or valid_cell(nrows, ncols, idxup[q]))", props=["C05"])
+K.loop(0, var="i", invariant=[
+    "0 <= i and i <= nval",
+    "forall(k, 0 <= k < i, valid_cell(nrows, ncols, idxdown[k]))",
+    "implies(" + FDC_IS + ", forall(k, 0 <= k < i, " + UP_ROW + "))",
+    "forall(q, 0 <= q < 9*i, idxup[q] == -1 or valid_cell(nrows, ncols, idxup[q]))",
+])
+K.loop(1, var="j")                 # 9 neighbour slots: fully unrolled
+K.loop(2, var="j", unroll=9)       # padding with -1 from k to 9: unrolled with an unwinding assertion
+
+# ====================================================================================== exact cell function
+# cell_of: the cell holding (x, y) -- floor-based, lower/left edges belong to the cell, -1 outside or for NaN.
+# The C07 statements (footprint -> cell, outside -> -1) are lemmas over this function (below).
+F.spec("cell_of(nrows, ncols, xll, yll, csz, x, y)",
+       "ite(isnan(x) or isnan(y), -1, "
+       "ite(0 <= floor((x - xll)/csz) and floor((x - xll)/csz) < ncols and 0 <= floor((y - yll)/csz) and floor((y - yll)/csz) < nrows, "
+       "(nrows - 1 - floor((y - yll)/csz))*ncols + floor((x - xll)/csz), -1))")
+K = F.kernels["c_coord2cell"]
+K.ensures("forall(k, 0 <= k < nval, idxcell[k] == cell_of(nrows, ncols, xll, yll, csz, xycoords[2*k], xycoords[2*k+1]))", props=["C07", "C16"])
+K.loops[0].invariant.append("forall(k, 0 <= k < i, idxcell[k] == cell_of(nrows, ncols, xll, yll, csz, xycoords[2*k], xycoords[2*k+1]))")
+
+# ---------------------------------------------------------------------------------- c_slice (C05: safety only)
+K = F.kernel("c_slice")
+K.requires(SANE_GRID)
+K.requires("nval >= 0 and nval <= 2**60")
+K.requires("valid(data, nrows*ncols) and valid(xyslice, 2*nval) and valid(zslice, nval) and separated(data, xyslice, zslice)")
+K.requires("not isnan(xll) and not isnan(yll) and csz > 0")
+K.assigns("zslice[0:nval]")
+K.ensures("result == 0")
+K.loop(0, var="i", invariant=["0 <= i and i <= nval"])
+
+# ---------------------------------------------------------------------------------- c_slope (C05: safety only)
+K = F.kernel("c_slope")
+K.requires("nrows <= 2**30 and ncols <= 2**30 and nrows >= -2**30 and ncols >= -2**30")
+K.requires("implies(nrows >= 1 and ncols >= 1, valid(flowdir, nrows*ncols) and valid(altitude, nrows*ncols) and valid(slopeval, nrows*ncols))")
+K.requires("valid(flowdircode, 9) and separated(flowdircode, flowdir, altitude, slopeval)")
+K.assigns("slopeval[0:nrows*ncols]")
+K.loop(0, var="i", invariant=["0 <= i and ntot == nrows*ncols and nrows >= 1 and implies(ntot > 0, i <= ntot and ncols >= 1)"])
+
+# ====================================================================================== c_accumulate
+SANE_ANY = "nrows <= 2**30 and ncols <= 2**30 and nrows >= -2**30 and ncols >= -2**30"
+# ---- safety contract (C05): any grid (cycles included), any table, any nprint / cell limit
+K = F.kernel("c_accumulate")
+K.requires(SANE_ANY + " and max_accumulated_cells <= 2**61")
+K.requires("valid(flowdircode, 9)")
+K.requires("implies(nrows >= 1 and ncols >= 1, valid(flowdir, nrows*ncols) and valid(to_accumulate, nrows*ncols) and valid(accumulation, nrows*ncols))")
+K.requires("separated(flowdircode, flowdir, to_accumulate, accumulation)")
+K.assigns("accumulation[0:nrows*ncols]")      # C11/C18: the input grids are not in the frame
+K.loop(0, var="i", invariant=["0 <= i and ntot == nrows*ncols and nrows >= 1 and max_accumulated_cells >= 1 and implies(ntot > 0, i <= ntot and ncols >= 1)"])
+K.loop(1, var="accumulated_cells", invariant=[
+    "0 <= i and i < ntot and ntot == nrows*ncols and nrows >= 1 and ncols >= 1 and max_accumulated_cells >= 1",
+    "0 <= accumulated_cells and accumulated_cells <= max_accumulated_cells + 1",
+    "valid_cell(nrows, ncols, idxup[0])"],
+    variant="max_accumulated_cells + 1 - accumulated_cells")
+
+# ---- functional contract (C11) on acyclic grids with the default cell limit
+ACC_DOWN = "down(nrows, ncols, flowdir[{0}], {0})"
+K = F.kernel("c_accumulate#acyclic")
+K.requires(SANE_GRID + " and max_accumulated_cells <= 2**61 and max_accumulated_cells >= nrows*ncols")
+K.requires("valid(flowdircode, 9) and " + FDC_IS)
+K.requires("valid(flowdir, nrows*ncols) and valid(to_accumulate, nrows*ncols) and valid(accumulation, nrows*ncols)")
+K.requires("separated(flowdircode, flowdir, to_accumulate, accumulation)")
+K.requires("forall(c, 0 <= c < nrows*ncols, not isnan(to_accumulate[c]) and not isnan(accumulation[c]))")
+# acyclic: a height function strictly decreasing along the downstream relation exists
+K.ghost("hgt(c)", "int", None, concrete="ite(valid_cell(nrows, ncols, c) and %s >= 0, 1 + hgt(%s), 0)" % (ACC_DOWN.format("c"), ACC_DOWN.format("c")))
+K.requires("forall(c, 0 <= c < nrows*ncols, 0 <= hgt(c) and hgt(c) < nrows*ncols and "
+           "implies(%s >= 0, hgt(%s) < hgt(c)), hgt(c))" % (ACC_DOWN.format("c"), ACC_DOWN.format("c")))
+K.ghost("dn(c)", "int", ACC_DOWN.format("c"))
+# d drains through c (c is strictly downstream of d)
+K.ghost("reaches(d, c)", "bool",
+        "valid_cell(nrows, ncols, d) and dn(d) >= 0 and (dn(d) == c or reaches(dn(d), c))", decreases="hgt(d)")
+# sum of the field over the cells d < n that drain through c
+K.ghost("upsum(c, n)", "real", "ite(n <= 0, 0.0, upsum(c, n - 1) + ite(reaches(n - 1, c), to_accumulate[n - 1], 0.0))", decreases="n")
+K.lemma("dn_range", "dn(c) == -1 or dn(c) == -2 or valid_cell(nrows, ncols, dn(c))", fixed=["c"], pre="valid_cell(nrows, ncols, c)", trigger="dn(c)")
+K.lemma("reaches_lower", var="n", lo="0",
+        stmt="forall(x, 0 <= x < nrows*ncols, forall(y, 0 <= y < nrows*ncols, implies(hgt(x) <= n and reaches(x, y), hgt(y) < hgt(x)), reaches(x, y)))",
+        instance="nrows*ncols")
+K.lemma("reaches_step", var="n", lo="0",
+        stmt="forall(x, 0 <= x < nrows*ncols, forall(y, 0 <= y < nrows*ncols, implies(hgt(x) <= n and reaches(x, y) and dn(y) >= 0, reaches(x, dn(y))), mp(reaches(x, y), dn(y))))",
+        instance="nrows*ncols")
+K.assigns("accumulation[0:nrows*ncols]")
+K.ensures("result == 0", props=["C11"])
+# C11: a cell that drains into another cell holds its own (initial) value plus the field summed over everything draining through it
+K.ensures("forall(c, 0 <= c < nrows*ncols, implies(dn(c) >= 0, accumulation[c] == old(accumulation[c]) + upsum(c, nrows*ncols)))", props=["C11"])
+# cells that drain nowhere carry the no-data value
+K.ensures("forall(c, 0 <= c < nrows*ncols, implies(dn(c) < 0, accumulation[c] == nodata_to_accumulate))", props=["C11"])
+K.loop(0, var="i", invariant=[
+    "0 <= i and i <= ntot and ntot == nrows*ncols",
+    "forall(c, 0 <= c < nrows*ncols, implies(dn(c) >= 0, accumulation[c] == old(accumulation[c]) + upsum(c, i)))",
+    "forall(c, 0 <= c < i, implies(dn(c) < 0, accumulation[c] == nodata_to_accumulate))",
+])
+K.loop(1, var="accumulated_cells", invariant=[
+    "0 <= i and i < ntot and ntot == nrows*ncols",
+    "valid_cell(nrows, ncols, idxup[0]) and (idxup[0] == i or reaches(i, idxup[0])) and dn(idxup[0]) >= -2",
+    "0 <= accumulated_cells and accumulated_cells + hgt(idxup[0]) <= hgt(i)",
+    # cells visited so far by the walk that started at i: those i drains through, up to and including idxup[0]
+    "forall(c, 0 <= c < nrows*ncols, implies(dn(c) >= 0, accumulation[c] == old(accumulation[c]) + upsum(c, i) + "
+    "ite(reaches(i, c) and not reaches(idxup[0], c), to_accumulate[i], 0.0)))",
+    "forall(c, 0 <= c < i, implies(dn(c) < 0 and c != idxup[0], accumulation[c] == nodata_to_accumulate))",
+], variant="max_accumulated_cells + 1 - accumulated_cells")
+
+# ====================================================================================== c_intersect (C16)
+K = F.kernel("c_intersect")
+K.requires(SANE_GRID)
+K.requires("nval >= 0 and nval <= 2**40")
+K.requires("valid(xy_area, 2*nval) and ncells >= nrows*ncols and valid(idxcells, ncells) and valid(weights, ncells) and valid(npoints, 1)")
+K.requires("separated(xy_area, npoints, idxcells, weights)")
+K.requires("not isnan(xll) and not isnan(yll) and csz > 0 and not isnan(csz_area)")
+K.assigns("npoints[0:1]", "idxcells[0:ncells]", "weights[0:ncells]")
+# cell of the coarse grid holding the centre of catchment cell p (spec function of c_coord2cell)
+K.ghost("cellp(p)", "int", "cell_of(nrows, ncols, xll, yll, csz, xy_area[2*p], xy_area[2*p+1])")
+# number of catchment cells p < n whose centre falls in coarse cell c
+K.ghost("cnt(c, n)", "int", "ite(n <= 0, 0, cnt(c, n - 1) + ite(cellp(n - 1) == c, 1, 0))", decreases="n")
+K.lemma("cnt_nonneg", "cnt(c, n) >= 0", fixed=["c"], var="n", lo="0", trigger="cnt(c, n)")
+INTER_POST = [
+    "0 <= {m} and {m} <= {n}",
+    # each listed cell is a cell of the grid, holds at least one centre, and weighs (number of centres) x (ratio of cell areas)
+    "forall(k, 0 <= k < {m}, valid_cell(nrows, ncols, idxcells[k]) and cnt(idxcells[k], {n}) >= 1 and "
+    "weights[k] == (csz_area/csz)*(csz_area/csz)*real(cnt(idxcells[k], {n})))",
+    # each grid cell appears once
+    "forall(k1, 0 <= k1 < {m}, forall(k2, k1 < k2 < {m}, idxcells[k1] != idxcells[k2]))",
+    # every cell holding a centre is listed
+    "forall(c, 0 <= c < nrows*ncols, implies(cnt(c, {n}) > 0, exists(k, 0 <= k < {m}, idxcells[k] == c)))",
+]
+K.ensures("result == 0")
+for e in INTER_POST:
+    K.ensures(e.format(m="npoints[0]", n="nval"), props=["C16"])
+K.loop(0, var="i", invariant=["0 <= i and i <= nval and j <= ncells and areafactor == (csz_area/csz)*(csz_area/csz) and not isnan(areafactor)"]
+       + [e.format(m="j", n="i") for e in INTER_POST])
+K.loop(1, var="k", invariant=[
+    "0 <= k and k <= j",
+    "forall(q, 0 <= q < k, idxcells[q] != idxcell[0])",
+    "forall(q, 0 <= q < ncells, weights[q] == at_loop_entry(weights[q]))",
+], assume=[
+    # pigeonhole: j pairwise distinct cells of the grid, all different from one more cell of the grid, are fewer than the grid has cells
+    ("Pigeonhole", "implies(valid_cell(nrows, ncols, idxcell[0]) and "
+     "forall(q, 0 <= q < j, valid_cell(nrows, ncols, idxcells[q]) and idxcells[q] != idxcell[0]) and "
+     "forall(k1, 0 <= k1 < j, forall(k2, k1 < k2 < j, idxcells[k1] != idxcells[k2])), j < nrows*ncols)")])
